@@ -282,7 +282,12 @@ func execConc(p *concPlan) []string {
 	var out []string
 	dmx := astits.NewDemuxer(context.Background(), bytes.NewReader(p.stream))
 	for k := 0; k < len(p.stream)/188+50; k++ {
-		d, err := dmx.NextData()
+		var d *astits.DemuxerData
+		var err error
+		if pn := safeCall(func() { d, err = dmx.NextData() }); pn != nil {
+			out = append(out, "panic") // a panic inside the library is a result like any other: the monitor compares it with the solo run
+			break
+		}
 		if err == astits.ErrNoMorePackets {
 			break
 		}
